@@ -62,12 +62,14 @@ func zzParseAttrs(spec string) []*onnx.AttributeProto {
 		p := zzSplit(kv, '=')
 		name, val := p[0], p[1]
 		switch name {
-		case "perm", "axes":
+		case "perm", "axes", "pads", "strides", "dilations", "kernel_shape":
 			var is []int64
 			for _, x := range zzSplit(val, ',') {
 				is = append(is, int64(zzAtoi(x)))
 			}
 			out = append(out, &onnx.AttributeProto{Name: name, Type: onnx.AttributeProto_INTS, Ints: is})
+		case "auto_pad", "direction":
+			out = append(out, &onnx.AttributeProto{Name: name, Type: onnx.AttributeProto_STRING, S: []byte(val)})
 		case "activations":
 			var ss [][]byte
 			for _, x := range zzSplit(val, ',') {
@@ -80,7 +82,7 @@ func zzParseAttrs(spec string) []*onnx.AttributeProto {
 				fs = append(fs, float32(zzAtoi(x)))
 			}
 			out = append(out, &onnx.AttributeProto{Name: name, Type: onnx.AttributeProto_FLOATS, Floats: fs})
-		case "value_float":
+		case "value_float", "alpha", "beta":
 			out = append(out, &onnx.AttributeProto{Name: name, Type: onnx.AttributeProto_FLOAT, F: float32(zzAtoi(val))})
 		default:
 			out = append(out, &onnx.AttributeProto{Name: name, Type: onnx.AttributeProto_INT, I: int64(zzAtoi(val))})
